@@ -111,3 +111,12 @@ claim("C16", "Coq semantics of call histories and of threads sharing an immutabl
       "from 16 threads on one shared reference, in release and dev builds, all equal and equal to the model; the Send + Sync assertion binary must compile.",
       "Partial: Send/Sync is decided by rustc, not by Coq; data-race freedom is observed, not proved; profile independence rests on C04/C05 (no overflow site reachable) plus the dev-vs-release comparison.",
       "DESIGN.md section 5, C16")
+claim("C12", "Coq theorems on the reader's buffering and the inflate size checks + an arithmetic bound for a cost function, validated by a counting allocator",
+      "Theorems C12_buffered_le_input (for every request tree, hence for the whole loader and every payload decoder: the bytes the reader materialises never exceed "
+      "the bytes supplied, whatever sizes the file declares), C12_buffered_consumed, C12_unzip_exact / C12_unzip_bounded (an accepted decompressed payload has exactly "
+      "the declared size, is never inflated more than one byte past it, and under the recorded 1032:1 ratio is bounded by the compressed bytes), C12_take_bytes_bounded, "
+      "C12_bound_partial (the closed-form cost alloc_upper is below 64 MiB + 8192 B per input byte under the byte-budget accounting); the check re-proves them and measures "
+      "peak live bytes and the largest request with a counting global allocator on inputs that inflate every declared size field, deflate bombs and count-driven tables, "
+      "against both the property's bound and alloc_upper.",
+      "Partial: the allocator, Vec/HashMap/BTreeMap growth and struct layout are modelled by alloc_upper and validated by measurement, not derived from the code; the byte-budget hypotheses of C12_bound_partial (16 B per frame, 24 B per layer, 6 B per entity) are accounting, not a theorem about the parser. A new declared-size reservation in the code is detected when an input makes the measurement exceed alloc_upper or the bound.",
+      "DESIGN.md section 5, C12")
